@@ -72,7 +72,15 @@ func RunObserved(ctx context.Context, pr Program, sameProc, doRollback bool) (*O
 	if o.Pre, err = ReadDisk(dir); err != nil {
 		return nil, err
 	}
-	e.ColdRestart()
+	if sameProc {
+		// one long-lived process: the caches are as the setup commits and an earlier reader left them (the writer
+		// and the readers of this run then share cached node objects)
+		if _, err := readerDump(ctx, e, true); err != nil {
+			return nil, err
+		}
+	} else {
+		e.ColdRestart()
+	}
 	sc := txk.NewScript(e.Canon)
 	phase := "work"
 	occ := map[string]int{}
